@@ -1344,14 +1344,14 @@ fn main() {
     let mut cc = cliconf::core_rows(&mut rng);
     cc.extend(cliconf::plugin_fault_rows());
     cc.extend(cliconf::pairwise_rows(&mut rng));
-    cc.extend(cliconf::random_rows(&mut rng, if search { 1500 } else { args.budget(100, 3000) }));
+    cc.extend(cliconf::random_rows(&mut rng, if search { 1500 } else { args.budget(60, 3000) }));
     rep.extra.insert("cli_config_cases".into(), json!(cc.len()));
     cli_stream(&mut rep, &args, &cc);
     rep.extra.insert("cli_stream_ms".into(), json!(t_cli.elapsed().as_millis() as u64));
     let t_project = std::time::Instant::now();
     // the project stream: several operation files connected by #import, through the CLI's and the loader's composition
     let mut pc = project::systematic_projects(&mut rng, args.thorough() || search);
-    for _ in 0..(if search { 4000 } else { args.budget(700, 8000) }) {
+    for _ in 0..(if search { 4000 } else { args.budget(450, 8000) }) {
         pc.push(project::random_project(&mut rng, &mut |rng, t| mutate::mutate(rng, t).0));
     }
     rep.extra.insert("project_cases".into(), json!(pc.len()));
@@ -1362,7 +1362,7 @@ fn main() {
     stress_stream(&mut rep, &sh);
     // the same fragment / field / inline fragment repeated in one scope under different conditions (valid documents)
     let mut rc = repeats::systematic(&mut rng, args.thorough() || search);
-    for _ in 0..args.budget(300, 3000) {
+    for _ in 0..args.budget(200, 3000) {
         rc.push(repeats::random(&mut rng));
     }
     rep.extra.insert("conditional_repeat_cases".into(), json!(rc.len()));
